@@ -152,6 +152,95 @@ theorem C10_link_phase (all : List Layer) (g : DbObj) (ls : List Layer) (h : Hea
 theorem C10_refresh_wf (extra : List (Id × Obj)) (ls : List Layer) :
     WF (buildGlobal extra ls).1 (buildGlobal extra ls).2 := buildGlobal_wf extra ls
 
+/-- **Generations: `refresh()` on a `Database` object that was loaded, modified and is refreshed again.**
+    Whatever dictionaries earlier generations left on the heap (`h0` arbitrary): the link database the
+    refresh builds stores exactly what the link database of a *pristine* `Database` with the current
+    content stores (hence, by `C10_build`, `carried` of the current entries: an id that no current object
+    carries is unbound, whatever carried it before); the dictionaries of the earlier generations are not
+    touched; and the complete outcome of the refresh — every bound ODXLINK target, every bound short-name
+    target, or the error — is that of the pristine database. -/
+theorem C10_refresh_generation_independent (h0 : Heap) (extra : List (Id × Obj)) (ls : List Layer) :
+    view (buildGlobalOn h0 extra ls).1 (buildGlobalOn h0 extra ls).2
+        = view (buildGlobal extra ls).1 (buildGlobal extra ls).2 ∧
+    (∀ a, a < h0.cells.length → (buildGlobalOn h0 extra ls).1.read a = h0.read a) ∧
+    (refreshOn h0 extra ls).map (fun l => (l.links, l.snrefs))
+        = (refresh extra ls).map (fun l => (l.links, l.snrefs)) := by
+  have hOn := hUpdate_spec
+    ((extra ++ ls.flatMap (·.links)).foldl (fun acc e => dset e.1 e.2 acc) []) true (h0, []) (WF_nil _)
+  have hv : view (buildGlobalOn h0 extra ls).1 (buildGlobalOn h0 extra ls).2
+      = view (buildGlobal extra ls).1 (buildGlobal extra ls).2 := by
+    rw [buildGlobal_view]
+    exact hOn.1
+  have hwOn : WF (buildGlobalOn h0 extra ls).1 (buildGlobalOn h0 extra ls).2 := hOn.2.wf
+  refine ⟨hv, fun a ha => hOn.2.frame a ha (by simp), ?_⟩
+  have h1 := (C10_link_phase ls (buildGlobalOn h0 extra ls).2 ls (buildGlobalOn h0 extra ls).1 hwOn).1
+  have h2 := (C10_link_phase ls (buildGlobal extra ls).2 ls (buildGlobal extra ls).1 (buildGlobal_wf extra ls)).1
+  rw [hv, ← h2] at h1
+  cases hA : resolveLayers ls (buildGlobalOn h0 extra ls).2 (buildGlobalOn h0 extra ls).1 ls with
+  | error e =>
+    cases hB : resolveLayers ls (buildGlobal extra ls).2 (buildGlobal extra ls).1 ls with
+    | error e' =>
+      rw [hA, hB] at h1; simp only [Except.map] at h1; cases h1
+      simp only [refreshOn, refresh, hA, hB]
+    | ok q => rw [hA, hB] at h1; simp [Except.map] at h1
+  | ok p =>
+    cases hB : resolveLayers ls (buildGlobal extra ls).2 (buildGlobal extra ls).1 ls with
+    | error e' => rw [hA, hB] at h1; simp [Except.map] at h1
+    | ok q =>
+      rw [hA, hB] at h1
+      obtain ⟨ha, la⟩ := p
+      obtain ⟨hb, lb⟩ := q
+      simp only [Except.map, Except.ok.injEq] at h1
+      subst h1
+      simp only [refreshOn, refresh, hA, hB]
+      cases snrefPhase ls la ls <;> rfl
+
+namespace ExGen
+def fC : Frag := ⟨"C", "CONTAINER"⟩
+def fL : Frag := ⟨"L", "LAYER"⟩
+def dOld : Obj := ⟨1, ["DataObjectProperty", "DopBase"], "speed"⟩
+def dNew : Obj := ⟨2, ["DataObjectProperty", "DopBase"], "velocity"⟩
+/-- generation 1: layer `L` defines the DOP `speed` under the id `d.speed` and refers to it -/
+def gen1 : List Layer :=
+  [{ obj := ⟨10, ["DiagLayer"], "L"⟩, frags := [fC, fL], isEsd := false,
+     links := [(⟨"L", [fC, fL]⟩, ⟨10, ["DiagLayer"], "L"⟩), (⟨"d.speed", [fC, fL]⟩, dOld)], importRefs := [],
+     parentKeys := [], prio := 3, refs := [⟨"L.p.dop", ⟨"d.speed", [fC, fL]⟩, none⟩], snrefs := [], locals := [] }]
+/-- generation 2: the DOP was replaced by one with another id; the reference still names `d.speed` -/
+def gen2 : List Layer :=
+  [{ obj := ⟨10, ["DiagLayer"], "L"⟩, frags := [fC, fL], isEsd := false,
+     links := [(⟨"L", [fC, fL]⟩, ⟨10, ["DiagLayer"], "L"⟩), (⟨"d.velocity", [fC, fL]⟩, dNew)], importRefs := [],
+     parentKeys := [], prio := 3, refs := [⟨"L.p.dop", ⟨"d.speed", [fC, fL]⟩, none⟩], snrefs := [], locals := [] }]
+end ExGen
+
+/-- non-vacuity of `C10_refresh_generation_independent`: generation 1 loads (the reference is bound to
+    object 1); refreshing generation 2 on the heap generation 1 left behind raises `KeyError`, exactly as
+    the pristine database does -/
+example :
+    (refresh [] ExGen.gen1).map (·.links) = .ok [("L.p.dop", 1)] ∧
+    (refreshOn (buildGlobal [] ExGen.gen1).1 [] ExGen.gen2).map (·.links) = .error .key ∧
+    (refresh [] ExGen.gen2).map (·.links) = .error .key := by decide
+
+/-- **Counter-example for the variant that keeps the link database object between refreshes** (created
+    once in `__init__`, only `update`d by `refresh`): the link database then does *not* store what a
+    pristine database stores — the id `d.speed`, carried by no object of generation 2, is still bound to
+    the object of generation 1, and the dangling reference is silently bound to it instead of raising. -/
+theorem C10_refresh_keep_counterexample :
+    ¬ ∀ (prev : Heap × DbObj) (extra : List (Id × Obj)) (ls : List Layer), WF prev.1 prev.2 →
+        view (buildGlobalKeep prev extra ls).1 (buildGlobalKeep prev extra ls).2
+          = view (buildGlobal extra ls).1 (buildGlobal extra ls).2 := by
+  intro hall
+  have := hall (buildGlobal [] ExGen.gen1) [] ExGen.gen2 (buildGlobal_wf [] ExGen.gen1)
+  have hd : decide (view (buildGlobalKeep (buildGlobal [] ExGen.gen1) [] ExGen.gen2).1
+      (buildGlobalKeep (buildGlobal [] ExGen.gen1) [] ExGen.gen2).2
+        = view (buildGlobal [] ExGen.gen2).1 (buildGlobal [] ExGen.gen2).2) = false := by decide
+  simp [this] at hd
+
+/-- … observable: with the kept object the dangling reference of generation 2 binds to object 1 (the DOP of
+    generation 1, no longer part of the database) -/
+example :
+    let s := buildGlobalKeep (buildGlobal [] ExGen.gen1) [] ExGen.gen2
+    (resolveLayers ExGen.gen2 s.2 s.1 ExGen.gen2).map (·.2) = .ok [("L.p.dop", 1)] := by decide
+
 /-- **Short-name references.** In strict mode `resolve_snref` returns `o` iff `o` is the one and only
     item of that name and has the expected type; otherwise it raises `OdxError` (no candidate, several
     candidates, wrong type) — it never returns `None` and never picks one of several. -/
